@@ -355,8 +355,10 @@ pub fn run(tier: Tier, seed: u64) -> i32 {
         let mut rev = all_outputs.clone();
         rev.reverse();
         layouts.push(rev);
-        for names in layouts {
-            let mk = |ns: &[String]| -> Answer { ns.iter().map(|n| (n.clone(), value_of(n))).collect() };
+        // every layout twice: each signal with a value of its own, and all signals with the same
+        // value (a deviation that keeps the length then leaves the values, read by position, as they were)
+        for (names, equal) in layouts.into_iter().flat_map(|l| [(l.clone(), false), (l, true)]) {
+            let mk = |ns: &[String]| -> Answer { ns.iter().map(|n| (n.clone(), if equal { V::Num(5) } else { value_of(n) })).collect() };
             let normal = MenuItem::ans(mk(&names));
             let fault = MenuItem { step: Step::Fault(41), deviation: true, label: "fault".into() };
             let mut menu = vec![normal.clone(), fault.clone()];
@@ -366,7 +368,7 @@ pub fn run(tier: Tier, seed: u64) -> i32 {
             }
             let init_menu = vec![normal.clone(), MenuItem { step: Step::Fault(40), deviation: true, label: "fault".into() }];
             for ov in [true, false] {
-                let mut c = Case::new(&format!("{} / first layout {names:?} / {}", p.name, if ov { "Ov" } else { "Fw" }), prog.clone(), p.sigs.clone(), ov, init_menu.clone(), menu.clone(), 24);
+                let mut c = Case::new(&format!("{} / first layout {names:?}{} / {}", p.name, if equal { " all values 5" } else { "" }, if ov { "Ov" } else { "Fw" }), prog.clone(), p.sigs.clone(), ov, init_menu.clone(), menu.clone(), 24);
                 c.dev_budget = 2;
                 c.continue_after_call_errors = true;
                 c.extra_known = vec![Sig::out("Zjunk", 4)];
